@@ -1003,6 +1003,77 @@ def wide_suite(ctx: Ctx, pool: Pool, real: Real, rounds: int, directed: bool = F
         w.check(ctx, real, w.gen(ctx.rng))
 
 
+def closure_state_suite(ctx: Ctx, n_specs: int):
+    """History independence at the level of the produced closures (real code only): ONE loader and ONE dumper of a generated
+    type are called with a sequence of valid and invalid arguments (failing calls in between successful ones); every call
+    must return / raise what the same call does on the loader / dumper of a never-used retort. A closure that keeps anything
+    from an earlier call (an error list, a partially built result, a consumed default) fails this."""
+    from adaptix import DebugTrail, Retort
+    from harness import morph
+    rng = ctx.rng
+    tg = morph.TypeGen(rng)
+    real0 = morph.Real()
+
+    def mk(mode, strict):
+        return Retort(debug_trail=getattr(DebugTrail, mode), strict_coercion=strict)
+    for i in range(n_specs):
+        spec = tg.gen(rng.choice([1, 2, 2, 3]))
+        if i % 5 == 0:
+            spec = tg.fixed_tuple(2)      # every container provider gets its share
+        elif i % 5 == 1:
+            spec = tg.mapping(2)
+        mode = rng.choice(["ALL", "ALL", "FIRST", "DISABLE"])
+        strict = rng.random() < 0.7
+        if real0.load("DISABLE", True, spec.hint, None).get("r") == "no-loader" or \
+                real0.dump("DISABLE", True, spec.hint, None).get("r") == "no-dumper":
+            continue
+        try:
+            values = [spec.gen(rng) for _ in range(3)]
+            data = [real0.dumper("DISABLE", True, spec.hint)(v) for v in values]
+        except Exception:  # noqa: BLE001
+            continue
+        loads = []
+        for d in data:
+            loads += [("valid", d), ("invalid", morph.corrupt(rng, spec, d))]
+        dumps = []
+        for v in values:
+            dumps += [("typed", v), ("ill-typed", morph.corrupt(rng, spec, v) if isinstance(v, (list, tuple, dict)) and rng.random() < 0.8
+                       else morph.wrong_values(rng))]
+        rng.shuffle(loads)
+        rng.shuffle(dumps)
+        warm = mk(mode, strict)
+        wl, wd = warm.get_loader(spec.hint), warm.get_dumper(spec.hint)
+        for direction, fn, calls in (("load", wl, loads), ("dump", wd, dumps)):
+            failed_before = False
+            for k, (label, arg) in enumerate(calls):
+                if isinstance(arg, (morph.IterDatum, morph.FreshDatum)) or morph.has_iter(_safe_enc(arg)):
+                    continue
+                fresh = mk(mode, strict)
+                ffn = fresh.get_loader(spec.hint) if direction == "load" else fresh.get_dumper(spec.hint)
+                got = morph.canon_outcome(morph.run_real(fn, arg))
+                want = morph.canon_outcome(morph.run_real(ffn, arg))
+                ctx.note_case({"suite": "closure-state", "hint": repr(spec.hint)[:120], "k": k, "dir": direction},
+                              nontrivial=failed_before, kind=f"closure-state:{direction}:{mode}:{'after-failure' if failed_before else 'first'}")
+                if got != want:
+                    ctx.fail(f"closure-state:{direction}:{spec.kind.split(':')[0]}",
+                             f"{direction}er of {repr(spec.hint)[:100]} [debug_trail={mode}, strict={strict}], call #{k} ({label}) "
+                             f"after {k} earlier calls{' including a failed one' if failed_before else ''}: {str(got)[:160]}; "
+                             f"the {direction}er of a fresh retort gives {str(want)[:160]}",
+                             {"suite": "closure-state", "hint": repr(spec.hint)[:300], "mode": mode, "strict": strict,
+                              "direction": direction, "calls": [[lb, repr(a)[:80]] for lb, a in calls[: k + 1]]})
+                    break
+                if got["r"] != "ok":
+                    failed_before = True
+
+
+def _safe_enc(v):
+    from harness import morph
+    try:
+        return morph.enc(v)
+    except morph.Unencodable:
+        return None
+
+
 # ---------------------------------------------------------------------------
 # entry points
 # ---------------------------------------------------------------------------
@@ -1100,6 +1171,7 @@ def run(ctx: Ctx):
     for lo in range(0, total, 500):
         run_cases(ctx, pool, real, drv, [random_case(pool, ctx.rng, 12) for _ in range(min(500, total - lo))])
     wide_suite(ctx, pool, real, ctx.budget(250, 4000), directed=True)
+    closure_state_suite(ctx, ctx.budget(90, 1500))
     ctx.extra["exhaustive"] = False
     ctx.extra["exhaustive_part"] = (f"every sequence of <= {max_len} get_loader (resp. get_dumper) requests over the "
                                     f"{len(Pool.CORE)}-hint core pool, each followed by a probe sweep over the core pool")
@@ -1128,6 +1200,8 @@ def search(ctx: Ctx):
         if ctx.failures:
             return
     wide_suite(ctx, pool, real, 1500)
+    if not ctx.failures:
+        closure_state_suite(ctx, 1000)
 
 
 def replay(ctx: Ctx, case) -> bool:
